@@ -116,7 +116,16 @@ func ibWrite(rows []stRow, finals []stEff, endZ int) []byte {
 	w("Statement", "Header", "Field Name", "Field Value")
 	w("Statement", "Data", "BrokerName", "Interactive Brokers")
 	w("Statement", "Data", "Title", "Activity Statement")
-	w("Statement", "Data", "Period", "January 1, 2020 - "+dayToTime(endZ).Format("January 2, 2006"))
+	period := "January 1, 2020 - " + dayToTime(endZ).Format("January 2, 2006")
+	oneDay := len(rows) > 0
+	for _, x := range rows {
+		oneDay = oneDay && x.Z == endZ
+	}
+	if oneDay {
+		// a daily activity statement names its day, not a range
+		period = dayToTime(endZ).Format("January 2, 2006")
+	}
+	w("Statement", "Data", "Period", period)
 	w("Account Information", "Header", "Field Name", "Field Value")
 	w("Account Information", "Data", "Name", "Rocky Balboa")
 	w("Account Information", "Data", "Base Currency", "CHF")
